@@ -42,7 +42,7 @@ def repo_hash():
         for root, dirs, fs in os.walk(os.path.join(VERIF, extra)):
             dirs[:] = [d for d in dirs if d not in ("target",)]
             for f in fs:
-                if f.endswith((".rs", ".toml")):
+                if f.endswith((".rs", ".toml.in")):
                     files.append(os.path.join(root, f))
     files.append(os.path.join(VERIF, "driver", "src", "main.rs"))
     for f in sorted(files):
@@ -97,13 +97,26 @@ def facts_for(tag, rhash=None, verbose=True):
         env.pop("RUSTC_WRAPPER", None)
         # harness crates path-depending on /repo need the repository's lock file
         if not mdir.startswith(REPO):
+            tin = os.path.join(mdir, "Cargo.toml.in")
+            if os.path.exists(tin):
+                with open(tin) as fh:
+                    txt = fh.read().replace("{REPO}", REPO)
+                with open(os.path.join(mdir, "Cargo.toml"), "w") as fh:
+                    fh.write(txt)
             shutil.copyfile(os.path.join(REPO, "Cargo.lock"), os.path.join(mdir, "Cargo.lock"))
         # cargo's freshness cache would skip the wrapper: drop the workspace members' artefacts
-        pk = WORKSPACE_PKGS + (["ractor_verif_witness_derive"] if tag == "gen" else []) + (["ractor_verif_positive"] if tag == "pos" else [])
+        if mdir.startswith(REPO):
+            pk = WORKSPACE_PKGS
+        else:
+            pk = ["ractor_verif_witness_derive"] if tag == "gen" else (["ractor_verif_positive"] if tag == "pos" else [])
         clean = ["cargo", "+nightly", "clean", "--offline", "--manifest-path", os.path.join(mdir, "Cargo.toml")]
         for p in pk:
             clean += ["-p", p]
-        subprocess.run(clean, env=env, stdout=subprocess.PIPE, stderr=subprocess.STDOUT)
+        cp = subprocess.run(clean, env=env, stdout=subprocess.PIPE, stderr=subprocess.STDOUT, text=True)
+        if cp.returncode != 0:
+            # fall back to one package at a time (unknown names are ignored)
+            for p in pk:
+                subprocess.run(["cargo", "+nightly", "clean", "--offline", "--manifest-path", os.path.join(mdir, "Cargo.toml"), "-p", p], env=env, stdout=subprocess.PIPE, stderr=subprocess.STDOUT)
         cmd = ["cargo", "+nightly", "check", "--offline", "--manifest-path", os.path.join(mdir, "Cargo.toml")] + cargs
         if mdir.startswith(REPO):
             cmd.insert(4, "--locked")
